@@ -1,8 +1,11 @@
 /-
   Driver/Parquet.lean — verbs: `parquet buckets step=2 parts=0,1,2`, `parquet fuseddiv divs=… step=… parts=…`,
-  `parquet guard r=a/b/c w=a/b`
+  `parquet guard r=a/b/c w=a/b`,
+  `parquet arrowstats calc=1 filters=0 sel=N files=7:0_4.3/5_9.4;2:N.2`  (statistics → divisions, sort index, lengths),
+  `parquet fsspecplan gather=1 calc=1 single=1 filters=0 sel=0,2 nparts=3 stats=3:0_4;0:N;2:5_9`
 -/
 import DxModel.Parquet
+import DxModel.ParquetStats
 import Driver.Proto
 open Dx Dx.Proto
 namespace Dx.Drv.Parquet
@@ -12,7 +15,136 @@ def rBuckets (bs : List (List Nat)) : String :=
 
 def comps (s : String) : List String := (s.splitOn "/").filter (fun c => c ≠ "")
 
+/-! #### statistics verbs -/
+open Dx.PqStats in
+def parseMM (s : String) : Option (Int × Int) :=
+  match s.splitOn "_" with
+  | [a, b] => match a.toInt?, b.toInt? with
+    | some a, some b => some (a, b)
+    | _, _ => none
+  | _ => none
+
+open Dx.PqStats in
+/-- row group `X.3` (no statistics object) | `N.3` (no min/max) | `0_4.3` -/
+def parseRG (s : String) : Option RawRG :=
+  match s.splitOn "." with
+  | [st, r] => match r.toNat? with
+    | none => none
+    | some r =>
+      if st = "X" then some ⟨none, r⟩
+      else if st = "N" then some ⟨some none, r⟩
+      else (parseMM st).map (fun mm => ⟨some (some mm), r⟩)
+  | _ => none
+
+open Dx.PqStats in
+/-- file `7:0_4.3/5_9.4` (file-level num_rows : row groups) -/
+def parseFile (s : String) : Option RawFile :=
+  match s.splitOn ":" with
+  | [n, rgs] => match n.toNat? with
+    | none => none
+    | some n =>
+      if rgs = "" then some ⟨n, []⟩
+      else ((rgs.splitOn "/").mapM parseRG).map (fun r => ⟨n, r⟩)
+  | _ => none
+
+def parseList {α} (f : String → Option α) (s : String) : Option (List α) :=
+  if s = "-" ∨ s = "" then some [] else (s.splitOn ";").mapM f
+
+/-- `N` = not filtered, `-` = empty selection, `0,2` -/
+def parseSel (s : String) : Option (Option (List Nat)) :=
+  if s = "N" then some none else (parseNats s).map some
+
+def rNats (l : List Nat) : String := if l.isEmpty then "-" else joinWith "," (l.map toString)
+def rInts (l : List Int) : String := if l.isEmpty then "-" else joinWith "," (l.map toString)
+
+open Dx.PqStats in
+def rAgg : Res (List AggFile) → String
+  | .raised => "RAISED"
+  | .ok l => if l.isEmpty then "-" else joinWith ";" (l.map (fun f =>
+      toString f.numRows ++ ":" ++ (match f.col with
+        | none => "-"
+        | some none => "N"
+        | some (some (a, b)) => toString a ++ "_" ++ toString b)))
+
+open Dx.PqStats in
+def rDiv : DivOut → String
+  | .raised => "RAISED"
+  | .known d o => "K " ++ rInts d ++ "|" ++ rNats o
+  | .unknown n o => "U " ++ toString n ++ "|" ++ (match o with
+      | none => "N"
+      | some o => rNats o)
+
+open Dx.PqStats in
+def rLens : Res (Option (List Nat)) → String
+  | .raised => "RAISED"
+  | .ok none => "NONE"
+  | .ok (some l) => "L " ++ rNats l
+
+open Dx.PqStats in
+def rLen : Res (Option Nat) → String
+  | .raised => "RAISED"
+  | .ok none => "NONE"
+  | .ok (some n) => toString n
+
+open Dx.PqStats in
+def parseFStat (s : String) : Option FStat :=
+  match s.splitOn ":" with
+  | [n, c] => match n.toNat? with
+    | none => none
+    | some n =>
+      if c = "X" then some ⟨n, .noName⟩
+      else if c = "O" then some ⟨n, .nameOnly⟩
+      else if c = "N" then some ⟨n, .mm none⟩
+      else (parseMM c).map (fun mm => ⟨n, .mm (some mm)⟩)
+  | _ => none
+
+open Dx.PqStats in
+def rFStats (l : List FStat) : String :=
+  if l.isEmpty then "-" else joinWith ";" (l.map (fun s => toString s.numRows ++ ":" ++ (match s.col with
+    | .noName => "X"
+    | .nameOnly => "O"
+    | .mm none => "N"
+    | .mm (some (a, b)) => toString a ++ "_" ++ toString b)))
+
+open Dx.PqStats in
+def arrowStats (calcDiv filters : Bool) (sel : Option (List Nat)) (files : List RawFile) : String :=
+  let agg := aggregatedStatistics files
+  let out := divisionFromStats calcDiv files.length agg
+  let frs := (match out with
+    | .raised => "RAISED"
+    | o => match fragments o (List.range files.length) with
+      | some l => rNats l
+      | none => "IDXERR")
+  let lens : Res (Option (List Nat)) :=
+    if filters then .ok none else
+    (match agg, out with
+     | .ok a, .raised => if calcDiv then .raised else arrowGetLengths filters a none sel
+     | .ok a, o => arrowGetLengths filters a (sortIndex o) sel
+     | .raised, _ => .raised)
+  rAgg agg ++ " => " ++ rDiv out ++ " => frags=" ++ frs ++ " => lengths=" ++ rLens (lengthsPushdown lens)
+    ++ " len=" ++ rLen (lenPushdown lens)
+
+open Dx.PqStats in
+def fsspecPlan (gather calcDiv single filters : Bool) (sel : Option (List Nat)) (nparts : Nat) (stats : List FStat) : String :=
+  let p := plan (List.range nparts) stats gather calcDiv single
+  let lens : Res (Option (List Nat)) := fsspecGetLengths filters (p.stats.map (·.numRows)) sel
+  if p.divisions == .raised then "RAISED" else
+  "empty=" ++ bool01 p.empty ++ " parts=" ++ rNats p.parts ++ " stats=" ++ rFStats p.stats ++ " div=" ++ rDiv p.divisions
+    ++ " lengths=" ++ (if p.stats.isEmpty && !filters then "SKIP" else rLens (lengthsPushdown lens))
+    ++ " len=" ++ (if p.stats.isEmpty && !filters then "SKIP" else rLen (lenPushdown lens))
+
 def handle : List String → Option String
+  | "parquet" :: "arrowstats" :: rest =>
+    let kv := kvs rest
+    match getBool kv "calc", getBool kv "filters", (get kv "sel").bind parseSel, (get kv "files").bind (parseList parseFile) with
+    | some c, some f, some sel, some files => some (arrowStats c f sel files)
+    | _, _, _, _ => some "BAD params"
+  | "parquet" :: "fsspecplan" :: rest =>
+    let kv := kvs rest
+    match getBool kv "gather", getBool kv "calc", getBool kv "single", getBool kv "filters",
+          (get kv "sel").bind parseSel, getNat kv "nparts", (get kv "stats").bind (parseList parseFStat) with
+    | some g, some c, some s, some f, some sel, some n, some stats => some (fsspecPlan g c s f sel n stats)
+    | _, _, _, _, _, _, _ => some "BAD params"
   | "parquet" :: "buckets" :: rest =>
     let kv := kvs rest
     match getNat kv "step", getNats kv "parts" with
